@@ -74,6 +74,11 @@ def run(ctx):
             cfg = tu.gen_config(ctx.rng)
             cfg.update({"limit": 1, "K": max(3, cfg["K"]), "force_final": ["singleton", "pair", "empty"][i % 3]})
             cfgs.append(cfg)
+        for i in range(6 if ctx.quick() else 60):
+            # a covariance floor that really zeroes entries: the scored / reported matrix is the FILTERED one
+            cfg = tu.gen_config(ctx.rng)
+            cfg.update({"eps": [0.02, 0.05, 0.2][i % 3], "lam": [0.0, 0.01, 0.05][i % 3]})
+            cfgs.append(cfg)
 
     # ---------------- (a) kernel vs model at Rat
     nwl = {}
@@ -183,4 +188,6 @@ def run(ctx):
                     ctx.violation("impl-violation", "overall mean/median are not those of the log-densities", cfg, {"site": "ll-result"})
         # (length mismatches are C06's business)
         ctx.count("runs_checked")
+        if cfg.get("eps"):
+            ctx.count("runs_with_floor")
         ctx.case(("cfg", repr(sorted(cfg.items()))), nontrivial=cfg["N"] * cfg["W"] >= 2)
